@@ -412,9 +412,11 @@ fn fails_as(src: &[u8], o: &Opts, clause: &str, class: &str) -> bool {
 
 /// Greedy minimisation of a failing source (lines, then tokens, then characters
 /// of comments/whitespace) keeping the same clause failing under the same options.
-pub fn minimise(src: &[u8], o: &Opts, clause: &'static str, class: &str) -> Vec<u8> {
+pub fn minimise(src: &[u8], o: &Opts, clause: &'static str, class: &str) -> Vec<u8> { minimise_with(src, o, clause, class, 1500) }
+
+pub fn minimise_with(src: &[u8], o: &Opts, clause: &'static str, class: &str, budget: i32) -> Vec<u8> {
     let mut cur = src.to_vec();
-    let mut budget = 1500i32;
+    let mut budget = budget;
     let token_spans = |s: &[u8]| -> Vec<std::ops::Range<usize>> {
         CSTStream::from(Parser::new(s)).filter_map(|e| if let Event::Token { span, .. } = e { Some(span.range()) } else { None }).collect()
     };
@@ -469,6 +471,10 @@ pub fn diff_fingerprint(p1: &[u8], p2: &[u8]) -> String {
         let end = if i == spans.len() { src.len() } else { spans[i].1.start };
         src[start..end].to_vec()
     };
+    // A change next to a comment is taken as the cause even when an earlier gap
+    // changes too (e.g. the padding of an alignment block shifts because a line
+    // break was added after a comment further down).
+    let mut first_other: Option<String> = None;
     for i in 0..=a.len() {
         let (g1, g2) = (gap(p1, &a, i), gap(p2, &b, i));
         if g1 != g2 {
@@ -476,16 +482,19 @@ pub fn diff_fingerprint(p1: &[u8], p2: &[u8]) -> String {
             let d = |j: isize| -> String { if j < 0 { "START".into() } else if j as usize >= a.len() { "END".into() } else { describe(a[j as usize].0, &p1[a[j as usize].1.clone()]) } };
             let is_comment = |j: isize| j >= 0 && (j as usize) < a.len() && a[j as usize].0 == SyntaxKind::COMMENT;
             let change = if nl(&g1) < nl(&g2) { "line-break-added" } else if nl(&g1) > nl(&g2) { "line-break-removed" } else { "spaces-changed" };
-            return if is_comment(i as isize - 1) { format!("whitespace-next-to-comment:{}-after-comment", change) }
-                else if is_comment(i as isize) { format!("whitespace-next-to-comment:{}-before-comment", change) }
-                else if i == a.len() { format!("{}-at-end-of-file", change) }
-                else { format!("other:after[{} {}] {} before[{}]", d(i as isize - 2), d(i as isize - 1), change, d(i as isize)) };
+            if is_comment(i as isize - 1) { return format!("whitespace-next-to-comment:{}-after-comment", change); }
+            if is_comment(i as isize) { return format!("whitespace-next-to-comment:{}-before-comment", change); }
+            if first_other.is_none() {
+                first_other = Some(if i == a.len() { format!("{}-at-end-of-file", change) }
+                    else { format!("other:after[{} {}] {} before[{}]", d(i as isize - 2), d(i as isize - 1), change, d(i as isize)) });
+            }
         }
         if i < a.len() && p1[a[i].1.clone()] != p2[b[i].1.clone()] {
             return if a[i].0 == SyntaxKind::COMMENT { "comment-continuation-lines-reindented".into() }
                    else { format!("token-text-changes[{}]", describe(a[i].0, &p1[a[i].1.clone()])) };
         }
     }
+    if let Some(o) = first_other { return o; }
     "no-difference-found".into()
 }
 
@@ -855,5 +864,12 @@ fn probe(path: &str) -> i32 {
     println!("--- pass 2 ({:?})\n{}", ob.out2, String::from_utf8_lossy(&ob.out2_text));
     println!("failing clauses: {:?}", f);
     for c in &f { println!("class: {}", classify(&src, &o, c)); }
+    if let (Some(b), Some(c)) = (std::env::var("C15_MINIMISE").ok(), f.first()) {
+        let class = classify(&src, &o, c);
+        let clause: &'static str = match *c { "idempotence" => "idempotence", "tokens" => "tokens", "panic" => "panic", "hang" => "hang", "modified-flag" => "modified-flag", _ => "unexpected-error" };
+        let m = minimise_with(&src, &o, clause, &class, b.parse().unwrap_or(5000));
+        let mo = observe(&m, &o);
+        println!("--- minimised ({} bytes)\n{:?}\n--- pass 1\n{:?}\n--- pass 2\n{:?}", m.len(), String::from_utf8_lossy(&m), String::from_utf8_lossy(&mo.out1_text), String::from_utf8_lossy(&mo.out2_text));
+    }
     if f.is_empty() { 0 } else { 1 }
 }
